@@ -41,6 +41,23 @@ pub fn special_texts() -> Vec<String> {
             v.push(format!("{n} S struct S"));
         }
     }
+    // page geometry: one-byte tokens (and one illegal character) exactly on / around multiples of P, between
+    // whole pages of pure blanks
+    for p in [8usize, 64, 4096, 65_536] {
+        for blank in [" ", "\n", "\t"] {
+            for c in ["A", "_", "{", "@", "é", "$"] {
+                for off in [0usize, 1, p - 1] {
+                    let mut t = blank.repeat(p + off);
+                    t.push_str(c);
+                    t.push_str(&blank.repeat(2 * p - off - 1));
+                    t.push_str("B");
+                    t.push_str(&blank.repeat(p - 1));
+                    t.push_str(c);
+                    v.push(t);
+                }
+            }
+        }
+    }
     // the shape of the generator's own output header in front of a grammar
     v.push("// x\n// @sha256 e3b0c44298fc1c149afbf4c8996fb92427ae41e4649b934ca495991b7852b855\nstart S\nstruct S\nterminal T {}\n".to_string());
     v.push("// @sha256 E3B0C44298FC1C149AFBF4C8996FB92427AE41E4649B934CA495991B7852B855\r\nstart S".to_string());
